@@ -206,8 +206,12 @@ def run_check(spec, tier, seed, only_stage=None):
             n_mis = 0
             for c in cases:
                 if c["fail"]:
-                    violations.append({"key": c["key"], "concrete": True, "what": c["what"],
-                                       "case": {"stage": sname, "fail": c}})
+                    if c["key"].startswith("unchecked:"):
+                        violations.append({"key": "corr_" + c["key"][10:], "concrete": False, "what": c["what"],
+                                           "unchecked": "corr_" + c["key"][10:] + "_" + sname})
+                    else:
+                        violations.append({"key": c["key"], "concrete": True, "what": c["what"],
+                                           "case": {"stage": sname, "fail": c}})
                     continue
                 evaluations += 1
                 for t in c["tags"]:
